@@ -7,7 +7,8 @@ PATCHES=("$@"); [ ${#PATCHES[@]} -eq 0 ] && PATCHES=(mutants/$ID/*.patch)
 OUT="mutants/$ID/RESULTS.txt"
 for p in "${PATCHES[@]}"; do
   case "$p" in *PROPOSED-FIX*) continue;; esac
-  res=$(tools/mutant.sh "$ID" "/verif/$p" 2>&1 | grep -E "^(MUTANT-RESULT|  generator=)" | head -3 | tr '\n' ' ')
+  out=$(tools/mutant.sh "$ID" "/verif/$p" 2>&1)
+  res="$(echo "$out" | grep -E "^MUTANT-RESULT" | head -1) $(echo "$out" | grep -E "^  generator=" | head -2 | cut -c1-220 | tr '\n' ' ')"
   echo "$(date +%F) $res" | tee -a "$OUT"
 done
 rm -rf "/root/scratch/mut-$ID${MUT_TAG:+-$MUT_TAG}"
